@@ -129,6 +129,45 @@ PROPS["C06"] = {
                  H("ZZ_C06_Loader", reach=["loaded"])],
 }
 
+_thr_note = "Trusted: go/ssa, executor (threads = controlled goroutines switched only at synchronisation operations: lock acquire, channel operation, select, WaitGroup.Wait, go, thread exit; exact blocking semantics; a state where no thread can run while the harness has not returned is reported as a deadlock), clock/ticker stubs, ideal reader/writer lock for RBMutex, concrete hash, one read stripe. "
+
+PROPS["C20"] = {
+    "title": "Wait is a write barrier and always returns",
+    "technique": "SSA symbolic execution with controlled threads (schedule choices explored exhaustively within a preemption bound) of the real Store.Set/Delete/Wait and maintenance loop; deadlock detection; barrier oracle",
+    "level_text": "Bounded model checking over schedules: W goroutines call the real Wait() concurrently after (or while) writes on a capacity-2 cache; every interleaving at synchronisation granularity within the preemption bound is executed on the real code; a state in which a Wait caller can never run again is a deadlock counterexample; at each return of Wait the accounting equalities and stored = resident + notified are asserted.",
+    "level_note": _thr_note + "Bounds: <=3 waiters, <=3 writes, preemption bound 0 (quick) / 1 (thorough), write-batch size 128 and 2.",
+    "assumptions": ["writes issued before the waiters start (ZZ_C20_Waiters) or by one concurrent writer (ZZ_C20_WaitWithWriter)"],
+    "outside_bound": ["more than 3 concurrent waiters", "preemption bound above 1", "timer ticks during Wait"],
+    "quick": [H("ZZ_C20_Waiters", params={"WAITERS": 2}, reach=["all-waiters-returned"], bounds="2 waiters, 3 writes + 1 delete, preemptions 0"),
+              H("ZZ_C20_Waiters", params={"WAITERS": 2, "WB": 2}, reach=["all-waiters-returned"], bounds="2 waiters, batch size 2 (markers across batch boundaries)"),
+              H("ZZ_C20_WaitWithWriter", params={"PRE": 0}, reach=["all-returned"], bounds="1 writer x3 + 2 waiters, preemptions 0")],
+    "thorough": [H("ZZ_C20_Waiters", params={"WAITERS": 2}, reach=["all-waiters-returned"]),
+                 H("ZZ_C20_Waiters", params={"WAITERS": 2, "WB": 2}, reach=["all-waiters-returned"]),
+                 H("ZZ_C20_Waiters", params={"WAITERS": 3, "WRITES": 2}, reach=["all-waiters-returned"], bounds="3 waiters"),
+                 H("ZZ_C20_Waiters", params={"WAITERS": 2, "PRE": 1}, reach=["all-waiters-returned"], bounds="2 waiters, preemptions 1"),
+                 H("ZZ_C20_WaitWithWriter", params={"PRE": 0}, reach=["all-returned"])],
+}
+
+def _c10(pre):
+    out = []
+    for q in (1, 64):
+        out += [H("ZZ_C10_AfterClose", params={"WQ": q}, reach=["closed"], bounds="queue size %d" % q),
+                H("ZZ_C10_CloseLeak", params={"WQ": q, "PRE": pre}, reach=["closed"], bounds="queue size %d, preemptions %d" % (q, pre)),
+                H("ZZ_C10_RaceClose", params={"WQ": q, "PRE": pre}, reach=["writer-and-closer-returned"], bounds="1 writer x3 vs Close, queue size %d, preemptions %d" % (q, pre)),
+                H("ZZ_C10_RaceWait", params={"WQ": q, "PRE": pre}, reach=["waiter-and-closer-returned"], bounds="Wait vs Close, queue size %d, preemptions %d" % (q, pre))]
+    return out
+
+PROPS["C10"] = {
+    "title": "every call terminates around Close; Close is final and leak-free",
+    "technique": "SSA symbolic execution with controlled threads of the real Store.Close racing Set/Wait, and of the calls after Close; deadlock (non-termination) detection and goroutine-exit check over all schedules within the bound",
+    "level_text": "Bounded model checking over schedules of the plain and loading Store: Close racing a writer with more writes than the queue holds (queue size 1 and 64), Close racing Wait, and the sequence of calls after Close; every schedule at synchronisation granularity within the preemption bound is executed; a blocked-forever caller is a deadlock counterexample; after Close the harness asserts misses, no effect, ErrCacheClosed and that every goroutine the constructor started has terminated.",
+    "level_note": _thr_note + "Known findings (not repaired: the repair touches every send site and the Wait protocol): Wait after/overlapping Close and writers overlapping Close can block forever. Hybrid variants (HybridCache.Close is empty; secondary workers never exit) are listed under outside_bound for this check and reported by the C14/C15 programs.",
+    "assumptions": ["one writer goroutine, one closer; entry pool off"],
+    "outside_bound": ["hybrid cache Close paths (theine package wrappers)", "more than one writer", "preemption bound above 1"],
+    "quick": _c10(0),
+    "thorough": _c10(1),
+}
+
 NOT_APPLICABLE = [
     {"property_id": "C09", "reason": "statistical hit-ratio property over 10^4-10^6-step traces; no bounded symbolic execution of a handful of steps decides it (DESIGN.md §4 C09). The mechanisms it names (admission direction, demotion instead of eviction) are asserted structurally under C07."},
 ]
